@@ -42,6 +42,8 @@ W3Early == S(<<E(<<T(1, 1, 1), CP(2, 1, 2), T(3, 1, Eternal)>>, 0)>>, <<>>, 3)
 \* TWO completed-by elements in a row (the per-step bookkeeping of the broadcast must be reset)
 TwoCB == S(<<E(<<CP(1, 1, 1), T(2, 1, Eternal)>>, 0), E(<<CP(3, 1, 1), T(4, 1, Eternal)>>, 0)>>, <<>>, 2)
 TwoAny == S(<<E(<<ACP(1, 1, 1), ACP(2, 1, 2)>>, 0), E(<<T(3, 1, Eternal), CP(4, 1, 2)>>, 0)>>, <<>>, 2)
+\* over-committed completed-by parallel with RAGGED rows (5 tasks on 2 clients: the last row has a padding cell)
+Ragged == S(<<E(<<CP(1, 1, 1), T(2, 1, 2), T(3, 1, 1), T(4, 1, 1), T(5, 1, 1)>>, 2), E(<<T(6, 2, 1)>>, 0)>>, <<>>, 2)
 W3Any == S(<<E(<<ACP(1, 1, 1), ACP(2, 1, 2), ACP(3, 1, 2)>>, 0), E(<<T(4, 2, 1)>>, 0)>>, <<1, 2, 3>>, 3)
 
 NoFaults == {"none"}
@@ -61,5 +63,5 @@ C07QuickScenarios == {Seq2, Named2, Any2, Over2, OverPlain1, OverPlain2, Timed2}
 C07Scenarios == {Seq2, Named2, Over2, OverPlain1}
 \* non-test mode with the coordinator's timers: a late relative-time reset wake-up
 StaleScenarios == {Seq2, Tiny2x2}
-ThoroughScenarios == QuickScenarios \cup {ThreeB, W3, W3Any, W3Split, W3Early, TwoCB, TwoAny}
+ThoroughScenarios == QuickScenarios \cup {ThreeB, W3, W3Any, W3Split, W3Early, TwoCB, TwoAny, Ragged}
 ====
